@@ -1,0 +1,81 @@
+//go:build verif
+
+// Contracts for the deductive verifier in /verif (comment-only file; see /verif/DESIGN.md).
+
+package ss2022
+
+// ---------------------------------------------------------------------------
+// Sliding window filter (property C04)
+// ---------------------------------------------------------------------------
+
+//@ pure swfBit(f *SlidingWindowFilter, c uint64) bool = f.ring[(c / 64) & f.ringBlockIndexMask] & (uint(1) << (c % 64)) != 0
+//@ pure swfInWin(f *SlidingWindowFilter, c uint64) bool = c <= f.last && f.last - c < f.size
+//@ pure swfShape(f *SlidingWindowFilter) bool = len(f.ring) >= 1 && len(f.ring) <= 1 << 40 && uint64(len(f.ring)) & (uint64(len(f.ring)) - 1) == 0 && f.ringBlockIndexMask == uint64(len(f.ring)) - 1 && f.size >= 1 && f.size <= 1 << 40 && f.size + 64 <= 64 * uint64(len(f.ring))
+//@ pure swfWF(f *SlidingWindowFilter) bool = swfShape(f) && (forall c uint64 :: c > f.last && c / 64 == f.last / 64 ==> !swfBit(f, c))
+
+//@ func NewSlidingWindowFilter
+//@   requires size >= 1 && size <= 1 << 32
+//@   modifies nothing
+//@   ensures fresh(result) && swfWF(result) && result.size == size && result.last == 0
+//@   ensures forall c uint64 :: !swfBit(result, c)
+
+//@ func (*SlidingWindowFilter).Size
+//@   modifies nothing
+//@   ensures result == f.size
+
+//@ func (*SlidingWindowFilter).Reset
+//@   requires swfWF(f)
+//@   modifies f.last, f.ring[0:1]
+//@   ensures swfWF(f) && f.last == 0 && !swfBit(f, 0)
+
+//@ func (*SlidingWindowFilter).IsOk
+//@   requires swfWF(f)
+//@   modifies nothing
+//@   ensures result == (counter > f.last || (f.last - counter < f.size && !swfBit(f, counter)))
+
+//@ func (*SlidingWindowFilter).MustAdd
+//@   requires swfWF(f)
+//@   requires counter > f.last || f.last - counter < f.size
+//@   modifies f.last, f.ring[*]
+//@   ensures swfWF(f)
+//@   ensures f.last == max(old(f.last), counter) && swfBit(f, counter)
+//@   ensures counter <= old(f.last) ==> (forall c uint64 :: c != counter && swfInWin(f, c) ==> swfBit(f, c) == old(swfBit(f, c)))
+//@   ensures counter > old(f.last) ==> (forall c uint64 :: c != counter && swfInWin(f, c) && c > old(f.last) && c / 64 == old(f.last) / 64 ==> !swfBit(f, c))
+//@   ensures counter > old(f.last) ==> (forall c uint64 :: c != counter && swfInWin(f, c) && c > old(f.last) && c / 64 != old(f.last) / 64 ==> !swfBit(f, c))
+//@   ensures counter > old(f.last) ==> (forall c uint64 :: swfInWin(f, c) && c <= old(f.last) ==> old(swfInWin(f, c)) && swfBit(f, c) == old(swfBit(f, c)))
+//@   loop 0 modifies f.ring[*]
+//@   loop 0 invariant 0 <= rangeint_iter && rangeint_iter < clearBlockCount
+//@   loop 0 invariant lastBlockIndex & f.ringBlockIndexMask == (old(f.last) / 64 + uint64(rangeint_iter)) & f.ringBlockIndexMask
+//@   loop 0 invariant forall j uint64 :: j < uint64(len(f.ring)) ==> f.ring[j] == (((j - old(f.last) / 64 - 1) & f.ringBlockIndexMask) < uint64(rangeint_iter) ? 0 : old(f.ring[j]))
+//@   loop 0 exit forall c uint64 :: c > old(f.last) && c <= counter && c / 64 != old(f.last) / 64 ==> f.ring[(c / 64) & f.ringBlockIndexMask] == 0
+//@   loop 0 exit forall c uint64 :: c <= old(f.last) && counter - c < f.size ==> f.ring[(c / 64) & f.ringBlockIndexMask] == old(f.ring[(c / 64) & f.ringBlockIndexMask])
+//@   loop 0 exit forall j uint64 :: j < uint64(len(f.ring)) ==> f.ring[j] == old(f.ring[j]) || f.ring[j] == 0
+
+//@ func (*SlidingWindowFilter).Add
+//@   requires swfWF(f)
+//@   modifies f.last, f.ring[*]
+//@   ensures swfWF(f)
+//@   ensures result == (counter > old(f.last) || (old(f.last) - counter < f.size && !old(swfBit(f, counter))))
+//@   ensures !result ==> unchanged(f.last, f.ring[*])
+//@   ensures result ==> f.last == max(old(f.last), counter) && swfBit(f, counter)
+//@   ensures result && counter <= old(f.last) ==> (forall c uint64 :: c != counter && swfInWin(f, c) ==> swfBit(f, c) == old(swfBit(f, c)))
+//@   ensures counter > old(f.last) ==> (forall c uint64 :: c != counter && swfInWin(f, c) && c > old(f.last) && c / 64 == old(f.last) / 64 ==> !swfBit(f, c))
+//@   ensures counter > old(f.last) ==> (forall c uint64 :: c != counter && swfInWin(f, c) && c > old(f.last) && c / 64 != old(f.last) / 64 ==> !swfBit(f, c))
+//@   ensures counter > old(f.last) ==> (forall c uint64 :: swfInWin(f, c) && c <= old(f.last) ==> old(swfInWin(f, c)) && swfBit(f, c) == old(swfBit(f, c)))
+//@   loop 0 modifies f.ring[*]
+//@   loop 0 invariant 0 <= rangeint_iter && rangeint_iter < clearBlockCount
+//@   loop 0 invariant lastBlockIndex & f.ringBlockIndexMask == (old(f.last) / 64 + uint64(rangeint_iter)) & f.ringBlockIndexMask
+//@   loop 0 invariant forall j uint64 :: j < uint64(len(f.ring)) ==> f.ring[j] == (((j - old(f.last) / 64 - 1) & f.ringBlockIndexMask) < uint64(rangeint_iter) ? 0 : old(f.ring[j]))
+//@   loop 0 exit forall c uint64 :: c > old(f.last) && c <= counter && c / 64 != old(f.last) / 64 ==> f.ring[(c / 64) & f.ringBlockIndexMask] == 0
+//@   loop 0 exit forall c uint64 :: c <= old(f.last) && counter - c < f.size ==> f.ring[(c / 64) & f.ringBlockIndexMask] == old(f.ring[(c / 64) & f.ringBlockIndexMask])
+//@   loop 0 exit forall j uint64 :: j < uint64(len(f.ring)) ==> f.ring[j] == old(f.ring[j]) || f.ring[j] == 0
+
+//@ lemma swfClearedArith(last uint64, counter uint64, c uint64, n uint64, size uint64)
+//@   requires n >= 1 && n <= 1 << 40 && n & (n - 1) == 0 && size >= 1 && size <= 1 << 40 && size + 64 <= 64 * n
+//@   requires counter > last && c > last && c <= counter && c / 64 != last / 64
+//@   ensures ((((c / 64) & (n - 1)) - last / 64 - 1) & (n - 1)) < uint64(min(int(counter / 64 - last / 64), int(n)))
+
+//@ lemma swfKeptArith(last uint64, counter uint64, c uint64, n uint64, size uint64)
+//@   requires n >= 1 && n <= 1 << 40 && n & (n - 1) == 0 && size >= 1 && size <= 1 << 40 && size + 64 <= 64 * n
+//@   requires counter > last && c <= last && counter - c < size
+//@   ensures !(((((c / 64) & (n - 1)) - last / 64 - 1) & (n - 1)) < uint64(min(int(counter / 64 - last / 64), int(n))))
